@@ -2,12 +2,12 @@
 from __future__ import annotations
 
 import ast
+import re
 
 from ..loops import dotted
 from ..nf import NF, Scope, Poly, parse_expr
-from ..repo import Repo, loc, short, AnalysisError, positional_params, param_names, bind_call
-from ..cfg import CFG
-from ..sem import same_ingredients
+from ..repo import Repo, loc, AnalysisError, positional_params, param_names
+from ..sem import same_ingredients, ingredient_tokens, closure_env, split_conditional_assignments
 
 EXPLANATION = (
     "The TD learners are read at loop level: one iteration of the training loop (from env.step to the next iteration) is evaluated per path "
@@ -16,7 +16,10 @@ EXPLANATION = (
     "polynomial identity, lr*(R + gamma*(1-D)*V_next - Q[S,A]) with the algorithm's V_next (greedy row maximum; value of an action selected "
     "on the same table at the successor; other table's value of the own greedy action, each table learning on some path). It does not matter "
     "whether the successor action is chosen in the loop or in the helper. Dyna-Q's planning loop is read the same way against the model "
-    "(s' = argmax P(.|s,a), r = R(s,a,s')). The Monte-Carlo fori_loop body is checked as three identities, Dyna-Q's model by its row footprint."
+    "(s' = argmax P(.|s,a), r = R(s,a,s')) for the pair of buffer entries it writes. The Monte-Carlo fori_loop body is read by the roles of the "
+    "loop-state components (entry and change of the entry of Q and n, the return), Dyna-Q's model and counter by their stores per path. "
+    "A mismatch is a violation only when the value read is built from the documented ingredients (or a path witness / wrong constant exists); "
+    "any other form is undecided."
 )
 TRUSTED = ["jnp `.at[idx].add/.set` functional update semantics; jnp.argmax returns a maximiser; jax.lax.fori_loop(lo, hi, body, init)"]
 RULES = {
@@ -28,31 +31,159 @@ RULES = {
 }
 
 A = "rl_blox.algorithm."
-def _at_writes(fn):
+_LOGIC = {"Lt", "LtE", "Eq", "NotEq", "Is", "IsNot", "In", "NotIn", "and", "or", "not", "None", "True", "False"}
+
+
+def _names(txt):
+    return re.findall(r"[A-Za-z_][A-Za-z_0-9]*", txt)
+
+
+def _params_by_role(fn, qual, names):
+    """Current names of the parameters that play the roles recorded under ``names``: a parameter keeps its name or, when it was renamed
+    in place, its position in the recorded signature (known_signatures.json)."""
+    from ..specialise import load_signatures
+    cur, rec = param_names(fn), load_signatures().get(qual) or []
     out = []
-    for n in ast.walk(fn):
-        if isinstance(n, ast.Call) and isinstance(n.func, ast.Attribute) and n.func.attr in ("add", "set", "multiply", "min", "max", "apply") and isinstance(n.func.value, ast.Subscript) \
-                and isinstance(n.func.value.value, ast.Attribute) and n.func.value.value.attr == "at":
+    for n in names:
+        if n in cur:
             out.append(n)
+        elif n in rec and len(cur) == len(rec) and cur[rec.index(n)] not in rec:
+            out.append(cur[rec.index(n)])
+        else:
+            raise AnalysisError(f"{qual}: parameter `{n}` vanished (anchor)")
     return out
 
 
+def _evidence(got, want, extra=()):
+    """A mismatch is evidence of another value only when the value read is made of the documented ingredients (combined differently) and
+    holds nothing the engine does not read element-wise (slices such as x[::-1], unresolved merges, opaque constructs)."""
+    g, w = got.canon(), want.canon()
+    return same_ingredients(got, want, extra) and not any(mk in g and mk not in w for mk in (":", "φ(", "⟦", "λ["))
+
+
+def _flat_text(a):
+    b = a.replace(", :]", "]")
+    if ":" in b or "⟦" in b or "λ[" in b:
+        return a        # slices / unread constructs are left alone
+    return b.replace("][", ", ")
+
+
+def _flat(p):
+    """One spelling for the ways of reading an array entry: x[s][a] is x[s, a] and x[s, :] is the row x[s] (atoms are renamed, the
+    polynomial structure is untouched; applied to both sides of a comparison)."""
+    mp = {a: Poly.atom(_flat_text(a)) for a in p.atoms() if _flat_text(a) != a}
+    return p.subst(mp) if mp else p
+
+
+def _at_update(nf, p):
+    """(base poly, index text, op, value poly) when ``p`` is `B.at[idx].add(v)` / `B.at[idx].set(v)`, else None."""
+    m = nf.meta.get(p.single_atom() or "")
+    if not m or "at" not in m or m["at"]["op"] not in ("add", "set") or len(m.get("args", [])) != 1 or m.get("kws"):
+        return None
+    return m["at"]["base"], m["at"]["index"], m["at"]["op"], m["args"][0]
+
+
+def _entry_delta(nf, p):
+    """(base poly, index text, change of the entry) of a functional single-entry update: `.add(v)` changes it by v, `.set(v)` by v - B[idx]."""
+    au = _at_update(nf, p)
+    if au is None:
+        return None
+    base, idx, op, val = au
+    return base, idx, (val if op == "add" else val - Poly.atom(f"{base.canon()}[{idx}]"))
+
+
+def _update_chain(nf, p, root):
+    """[(index text, op, value)] of the functional updates that lead from ``root`` to ``p`` (outermost first); None when ``p`` is not built so."""
+    out = []
+    while p != root:
+        au = _at_update(nf, p)
+        if au is None or len(out) > 8:
+            return None
+        out.append(au[1:])
+        p = au[0]
+    return out
+
+
+def _split_top(txt):
+    """Components of an index text `a, b[c, d], e` at bracket depth 0."""
+    out, depth, cur = [], 0, ""
+    for ch in txt:
+        depth += ch in "([{"
+        depth -= ch in ")]}"
+        if ch == "," and depth == 0:
+            out.append(cur.strip())
+            cur = ""
+        else:
+            cur += ch
+    return out + [cur.strip()]
+
+
+def _same_draw(nf, X, Y, OB, AB):
+    """'pair' when X / Y are the entries of the buffers OB / AB at one common position (the same expression up to the buffer; also as
+    components of one zip over such gathers), 'swapped' for that pair in the other order, None when this is not what they are."""
+    mx, my = re.match(r"^iter\((.*)\)\[(\d+)\]$", X), re.match(r"^iter\((.*)\)\[(\d+)\]$", Y)
+    if mx and my:
+        z = nf.meta.get(mx.group(1), {})
+        i_, j_ = int(mx.group(2)), int(my.group(2))
+        if mx.group(1) != my.group(1) or z.get("fn", "").split(".")[-1] != "zip" or max(i_, j_) >= len(z.get("args", [])):
+            return None
+        X, Y = z["args"][i_].canon(), z["args"][j_].canon()
+
+    def pair(x, y):
+        return x.startswith(OB + "[") and y == AB + x[len(OB):]       # the same subscripts applied to either buffer
+    return "pair" if pair(X, Y) else "swapped" if pair(Y, X) else None
+
+
+def _branch_literals(nf, pe, test, truth, out):
+    """Literals (text, truth) fixed by leaving ``test`` on its ``truth`` arm, values read in the state of the path: not / and / or are
+    split where the arm fixes every operand, `a <= b` is the negation of `b < a`; constant tests fix nothing."""
+    if isinstance(test, ast.UnaryOp) and isinstance(test.op, ast.Not):
+        return _branch_literals(nf, pe, test.operand, not truth, out)
+    if isinstance(test, ast.BoolOp) and ((isinstance(test.op, ast.Or) and not truth) or (isinstance(test.op, ast.And) and truth)):
+        for v in test.values:
+            _branch_literals(nf, pe, v, truth, out)
+        return
+    try:
+        c = pe.ev(test)
+    except Exception:
+        out.append((f"⟦{ast.unparse(test)}⟧", truth))
+        return
+    if c.is_const():
+        return
+    m = nf.meta.get(c.single_atom() or "", {})
+    if m.get("fn") in ("Lt", "LtE") and len(m.get("args", [])) == 2:
+        a, b = m["args"]
+        if m["fn"] == "LtE":
+            a, b, truth = b, a, not truth
+        out.append((f"Lt({a.canon()}, {b.canon()})", truth))
+        return
+    out.append((c.canon(), truth))
+
+
+def _witness_status(lits):
+    """Is a path with these branch literals a witness?  'infeasible' (one literal with both truth values), 'feasible' (the literals
+    are about unrelated quantities), 'unknown' (different conditions on a common quantity: not decided here)."""
+    d = {}
+    for t, v in lits:
+        if d.setdefault(t, v) != v:
+            return "infeasible"
+    toks = [set(_names(t)) - _LOGIC for t in d]
+    for i_ in range(len(toks)):
+        for j_ in range(i_ + 1, len(toks)):
+            if toks[i_] & toks[j_]:
+                return "unknown"
+    return "feasible"
+
 
 # ---- loop-level reading of the TD learners -------------------------------------------------------------------------------------------
+# tables / gamma / learning_rate: names in the recorded signatures (a parameter renamed in place is followed by position)
 TD_LOOPS = {
     A + "q_learning.train_q_learning": {"tables": ["q_table"], "bootstrap": "greedy"},
     A + "sarsa.train_sarsa": {"tables": ["q_table"], "bootstrap": "on-policy"},
     A + "double_q_learning.train_double_q_learning": {"tables": ["q_table1", "q_table2"], "bootstrap": "double"},
     A + "dynaq.train_dynaq": {"tables": ["q_table"], "bootstrap": "greedy", "mask_optional": True, "first_update_only": True},
 }
-
-
-def _at_update(nf, p):
-    """(base poly, index text, delta poly relative to the old entry) when ``p`` is `B.at[idx].add(v)` / `B.at[idx].set(v)`, else None."""
-    m = nf.meta.get(p.single_atom() or "")
-    if not m or "at" not in m or m["at"]["op"] not in ("add", "set") or len(m.get("args", [])) != 1 or m.get("kws"):
-        return None
-    return m["at"]["base"], m["at"]["index"], m["at"]["op"], m["args"][0]
+_SELECTION = ("argmax", "epsilon_greedy_policy", "epsilon", "key", "subkey", "jax", "random", "split")
 
 
 def _td_loops(ck, repo, nf):
@@ -63,11 +194,16 @@ def _td_loops(ck, repo, nf):
     from ..loops import find_env_loop, strip_wrappers
     n_loops = 0
     for tq, spec in TD_LOOPS.items():
-        L = find_env_loop(repo, tq)
+        fn0 = repo.func(tq)
+        if any(isinstance(x, ast.Assign) and isinstance(x.value, ast.IfExp) for x in ast.walk(fn0)):
+            # `a, b = (x, y) if c else (y, x)` is read as the two paths it stands for (the roles of the tables may be chosen that way)
+            from ..cfg import CFG
+            L = find_env_loop(repo, tq, {tq: CFG(split_conditional_assignments(fn0))})
+        else:
+            L = find_env_loop(repo, tq)
         cfg, mi, fn = L.cfg, L.mi, L.fn
         params = param_names(fn)
-        for t in spec["tables"] + ["gamma", "learning_rate"]:
-            ck.need(t in params, f"{tq}: parameter `{t}` vanished (anchor)")
+        *tables, GM, LR = _params_by_role(fn, tq, spec["tables"] + ["gamma", "learning_rate"])
         a = strip_wrappers(L.step_call.args[0]) if L.step_call.args else None
         ck.need(isinstance(a, ast.Name), f"{tq}: action passed to env.step is not a variable (unrecognised form)")
         avar = a.id
@@ -75,13 +211,18 @@ def _td_loops(ck, repo, nf):
         for n in cfg.nodes:
             if n.kind == "stmt" and isinstance(n.ast, ast.Assign) and L.is_reset_call(n.ast.value) and isinstance(n.ast.targets[0], (ast.Tuple, ast.List)) and isinstance(n.ast.targets[0].elts[0], ast.Name):
                 ovars.add(n.ast.targets[0].elts[0].id)
-        ck.need(len(ovars) == 1, f"{tq}: observation variable not identified (reset targets {sorted(ovars)})")
+        # the observation carried into an iteration is the one bound by the reset before the loop (a reset inside the loop may pass through another name)
+        opre = {n.ast.targets[0].elts[0].id for n in cfg.nodes if n.id in set(L.resets_pre) and n.kind == "stmt" and isinstance(n.ast, ast.Assign) and L.is_reset_call(n.ast.value)
+                and isinstance(n.ast.targets[0], (ast.Tuple, ast.List)) and isinstance(n.ast.targets[0].elts[0], ast.Name)}
+        if len(opre) == 1 and len(ovars) > 1:
+            ovars = opre
+        ck.need(len(ovars) == 1, f"{tq}: observation variable not identified (reset targets {sorted(ovars)}) (unrecognised form)")
         ovar = ovars.pop()
         nvar, rvar, dvar = L.pos.get(0), L.pos.get(1), L.pos.get(2)
-        ck.need(nvar and rvar and dvar, f"{tq}: step results are discarded")
+        ck.need(nvar and rvar and dvar, f"{tq}: step results are discarded (unrecognised form)")
         env0 = {p_: Poly.atom(p_, {p_}, {p_}) for p_ in params}
         env0.update({ovar: Poly.atom("S"), avar: Poly.atom("A"), nvar: Poly.atom("N"), rvar: Poly.atom("R"), dvar: Poly.atom("D")})
-        for t in spec["tables"]:
+        for t in tables:
             env0[t] = Poly.atom(t)
         # names bound in the iteration before the step (q = q1 + q2, ...): the same value on every way to the step
         try:
@@ -90,6 +231,7 @@ def _td_loops(ck, repo, nf):
             pre = []
         pre_env = None
         protected = set(env0)
+        avals = []      # value of the action variable on the ways to the step: another name holding that value is the action too (a = int(action))
         for pp in pre:
             pe0 = PathEval(nf, cfg, mi, tq, {k_: v_ for k_, v_ in env0.items() if k_ not in (avar, nvar, rvar, dvar)})
             try:
@@ -97,175 +239,252 @@ def _td_loops(ck, repo, nf):
             except Exception:
                 pre_env = {}
                 break
+            avals.append(pe0.env.get(avar))
             cur = {k_: v_ for k_, v_ in pe0.env.items() if k_ not in protected and "φ(" not in v_.canon()}
             pre_env = cur if pre_env is None else {k_: v_ for k_, v_ in cur.items() if k_ in pre_env and pre_env[k_] == v_}
+        aval = avals[0] if avals and pre_env and all(v_ is not None and v_ == avals[0] for v_ in avals) and "φ(" not in avals[0].canon() and not avals[0].is_const() else None
         for k_, v_ in (pre_env or {}).items():
-            env0.setdefault(k_, v_)
+            env0.setdefault(k_, env0[avar] if aval is not None and v_ == aval else v_)
         succ = [s_ for s_, _l in cfg.nodes[L.step_node].succ]
-        ck.need(len(succ) == 1, f"{tq}: env.step statement has {len(succ)} successors")
+        ck.need(len(succ) == 1, f"{tq}: env.step statement has {len(succ)} successors (unrecognised form)")
         try:
             paths = enumerate_paths(cfg, succ[0], {L.loop_header, cfg.exit}, max_paths=4000)
         except RuntimeError:
             raise AnalysisError(f"{tq}: too many paths through one iteration")
-        ssc = Scope(None, mi, env0, tq)
 
         def want_delta(own, other, nxt, masked):
             own_p, oth_p = env0[own], env0[other]
             sc_ = Scope(None, mi, {**env0, "OWN": own_p, "OTH": oth_p, "NEXTA": nxt}, tq)
             m_ = "(1 - D) * " if masked else ""
-            return nf.poly(parse_expr(f"learning_rate * (R + gamma * {m_}OTH[N, NEXTA] - OWN[S, A])"), sc_, None)
+            return _flat(nf.poly(parse_expr(f"{LR} * (R + {GM} * {m_}OTH[N, NEXTA] - OWN[S, A])"), sc_, None))
         seen, changed_tables, pending = set(), set(), []
         n_loops += 1
         where = loc(mi, L.step_stmt)
+        role_tokens = {"S", "A", "N", "argmax"} | set(tables)
         for pth in paths:
             pe = PathEval(nf, cfg, mi, tq, env0)
-            first = {}
+            first, lits, lits_at = {}, [], {}
             for nid, lab in pth:
-                before = {t: pe.env[t] for t in spec["tables"]}
+                before = {t: pe.env[t] for t in tables}
+                nd = cfg.nodes[nid]
+                if nd.kind == "test" and hasattr(nd.ast, "test") and lab in (True, False):
+                    _branch_literals(nf, pe, nd.ast.test, lab, lits)
                 pe.step(nid, lab)
-                for t in spec["tables"]:
+                for t in tables:
+                    if pe.env[t] != before[t] and not (spec.get("first_update_only") and t in first):
+                        lits_at[t] = list(lits)       # the branch decisions under which this table value was computed
                     if pe.env[t] != before[t] and t not in first:
                         first[t] = (pe.env[t], dict(pe.env), nid)
-            finals = {t: (first[t][0] if spec.get("first_update_only") and t in first else pe.env[t]) for t in spec["tables"]}
-            sig = tuple(finals[t].canon() for t in spec["tables"])
+            finals = {t: (first[t][0] if spec.get("first_update_only") and t in first else pe.env[t]) for t in tables}
+            sig = tuple(finals[t].canon() for t in tables)
             ends_in_next_iteration = pth[-1][0] == L.loop_header
-            key = (sig, "")
-            if key in seen:
-                continue
-            seen.add(key)
-            changed = [t for t in spec["tables"] if finals[t] != env0[t]]
+            changed = [t for t in tables if finals[t] != env0[t]]
             if len(changed) != 1:
                 if not changed and not ends_in_next_iteration:
                     continue     # leaving the routine without learning from the last step is C11's business
-                pending.append((changed, cfg.describe_path([x for x, _ in pth][:12])))
+                # a witness only if the branches taken on it can be taken together and every new table is read as an update of its old one
+                status = _witness_status(lits)
+                if status == "feasible" and any(not _update_chain(nf, finals[t], env0[t]) for t in changed):
+                    status = "unknown"
+                pending.append((changed, cfg.describe_path([x for x, _ in pth][:12]), status))
                 continue
             own = changed[0]
-            other = own if len(spec["tables"]) == 1 else next(t for t in spec["tables"] if t != own)
+            # an update computed under a decided `terminated` (`if terminated: target = reward else: ...`) is compared for that case
+            dl = {v_ for t_, v_ in lits_at.get(own, []) if t_ in ("D", "bool(D)")}
+            fix = {"D": Poly.const(1 if True in dl else 0)} if len(dl) == 1 else {}
+            key = (sig, str(sorted(dl)))
+            if key in seen:
+                continue
+            seen.add(key)
+            other = own if len(tables) == 1 else next(t for t in tables if t != own)
             changed_tables.add(own)
-            au = _at_update(nf, finals[own])
-            if au is None:
-                raise AnalysisError(f"{tq}: new value of `{own}` `{finals[own].canon()[:100]}` is not a single-entry update (unrecognised form)")
-            base, idx, op, val = au
-            if base != env0[own] and _at_update(nf, base) is not None:
+            chain = _update_chain(nf, finals[own], env0[own])
+            if not chain:
+                raise AnalysisError(f"{tq}: new value of `{own}` `{finals[own].canon()[:100]}` is not a single-entry update of the old table (unrecognised form)")
+            if len({i_ for i_, _o, _v in chain}) > 1:
+                # entries with different index tuples are written: evidence when every index is made of the roles of this step
+                if not all(set(_names(i_)) <= role_tokens for i_, _o, _v in chain):
+                    raise AnalysisError(f"{tq}: `{own}` is updated at {[i_[:40] for i_, _o, _v in chain]} (unrecognised form)")
                 ck.ob("R1-footprint", tq, f"single-write:{own}", False, f"{finals[own].canon()[:120]}", "one update changes more than one table entry", where)
                 continue
-            ok_fp = base == env0[own] and idx == "S, A"
-            if not ok_fp and not (base == env0[own] and set(_names(idx)) <= {"S", "A", "N"}):
-                raise AnalysisError(f"{tq}: `{own}` is updated at `{idx[:60]}` of `{base.canon()[:40]}` (unrecognised form)")
+            idx, op, val = chain[0]
+            if len(chain) > 1:
+                # the same entry written several times: increments that do not read the intermediate table add up
+                if not all(o_ == "add" for _i, o_, _v in chain) or any("at" in ingredient_tokens(v_) for _i, _o, v_ in chain):
+                    raise AnalysisError(f"{tq}: `{own}` entry [{idx[:40]}] is rewritten {len(chain)} times (unrecognised form)")
+                val = Poly.const(0)
+                for _i, _o, v_ in chain:
+                    val = val + v_
+            ok_fp = idx == "S, A"
+            if not ok_fp and not set(_names(idx)) <= {"S", "A", "N"}:
+                raise AnalysisError(f"{tq}: `{own}` is updated at `{idx[:60]}` (unrecognised form)")
             ck.ob("R1-footprint", tq, f"write-index:{own}", ok_fp, f"{own}.at[{idx}].{op}(...)", "" if ok_fp else "the entry written is not [observation acted on, action passed to env.step] of the table being updated (exactly one entry changes per step)", where)
             read = nf.poly(parse_expr("OWN[S, A]"), Scope(None, mi, {**env0, "OWN": env0[own]}, tq), None)
-            delta = val if op == "add" else val - read
+            delta = (_flat(val) if op == "add" else _flat(val) - _flat(read)).subst(fix)
             # the bootstrap action
+            offrow = []
             if spec["bootstrap"] in ("greedy", "double"):
                 row = nf.poly(parse_expr("OWN[N]"), Scope(None, mi, {**env0, "OWN": env0[own]}, tq), None)
                 cands = [nf._mkcall("argmax", [row], {})]
             else:
                 # SARSA: the value of a supplied next action - an action selected (epsilon-greedily) on this table at the successor observation
-                cands, offrow = [], []
+                cands = []
                 for v in (first.get(own, (None, {}, None))[1] or pe.env).values():
                     m_ = nf.meta.get(v.single_atom() or "", {})
-                    if m_.get("fn", "").endswith("greedy_policy") and len(m_.get("args", [])) >= 2:
+                    if m_.get("fn", "").endswith("greedy_policy") and len(m_.get("args", [])) >= 2 and v not in cands + offrow:
                         (cands if (m_["args"][0] == env0[own] and m_["args"][1] == env0[nvar]) else offrow).append(v)
-                for c_ in offrow:
-                    if want_delta(own, other, c_, True) == delta:
-                        m_ = nf.meta[c_.single_atom()]
-                        ck.ob("R2-co-indexing", tq, "next-action-provenance", False, f"bootstrap action = {c_.canon()[:100]}",
-                              "the successor action whose value is bootstrapped was not selected on the updated table at the successor observation", where)
+                off_hit = [c_ for c_ in offrow if want_delta(own, other, c_, True).subst(fix) == delta]
+                for c_ in off_hit:
+                    ck.ob("R2-co-indexing", tq, "next-action-provenance", False, f"bootstrap action = {c_.canon()[:100]}",
+                          "the successor action whose value is bootstrapped was not selected on the updated table at the successor observation", where)
+                if off_hit:
+                    continue
                 if not cands:
-                    cands = [Poly.atom("<no action selected on this table at the successor observation>")]
+                    raise AnalysisError(f"{tq}: no action selected on `{own}` at the successor observation is in reach of the update; increment `{delta.canon()[:100]}` (unrecognised form)")
             wants = []
             for c_ in cands:
                 wants.append((want_delta(own, other, c_, True), c_))
                 if spec.get("mask_optional"):
                     wants.append((want_delta(own, other, c_, False), c_))
-            hit = next(((w, c_) for w, c_ in wants if w == delta), None)
-            if hit is None and spec["bootstrap"] == "on-policy" and any(want_delta(own, other, c_, True) == delta for c_ in offrow):
-                continue
-            if hit is None and not same_ingredients(delta, wants[0][0], ("argmax", "epsilon_greedy_policy", "epsilon", "key", "subkey", "jax", "random", "split")):
+            hit = next(((w, c_) for w, c_ in wants if w.subst(fix) == delta), None)
+            if hit is None and not _evidence(delta, wants[0][0], _SELECTION):
                 raise AnalysisError(f"{tq}: increment `{delta.canon()[:120]}` (unrecognised form)")
-            ck.ob("R1-update-formula", tq, f"increment:{own}", hit is not None, f"increment = {delta.canon()[:170]}",
-                  "" if hit is not None else f"increment differs from the textbook one `{wants[0][0].canon()[:150]}` by `{(delta - wants[0][0]).canon()[:150]}`", where)
-        if changed_tables:
-            for changed, wit in pending:
-                ck.ob("R1-footprint", tq, "one-table-per-step", False, f"tables changed on a path of one iteration: {changed}", "every step must update exactly one table", where, wit)
+            w0 = wants[0][0].subst(fix)
+            ck.ob("R1-update-formula", tq, f"increment:{own}", hit is not None, f"increment = {delta.canon()[:170]}" + (f" (terminated = {bool(True in dl)})" if fix else ""),
+                  "" if hit is not None else f"increment differs from the textbook one `{w0.canon()[:150]}` by `{(delta - w0).canon()[:150]}`", where)
         if not changed_tables:
-            raise AnalysisError(f"{tq}: no path of one iteration rebinds {spec['tables']} (tables kept in another structure: unrecognised form)")
+            raise AnalysisError(f"{tq}: no path of one iteration rebinds {tables} (tables kept in another structure: unrecognised form)")
+        witnesses = [(c_, w_) for c_, w_, st_ in pending if st_ == "feasible"]
+        for changed, wit in witnesses:
+            ck.ob("R1-footprint", tq, "one-table-per-step", False, f"tables changed on a path of one iteration: {changed}", "every step must update exactly one table", where, wit)
+        if not witnesses and any(st_ == "unknown" for _c, _w, st_ in pending):
+            raise AnalysisError(f"{tq}: a path of one iteration changes {sorted({str(c_) for c_, _w, st_ in pending if st_ == 'unknown'})} tables, but its branch conditions test a common quantity in different ways or a new table is not read: not a witness (unrecognised form)")
         if spec["bootstrap"] == "double":
-            ok2 = changed_tables == set(spec["tables"])
-            ck.ob("R2-co-indexing", tq, "both-tables-learn", ok2, f"tables updated on some path: {sorted(changed_tables)}", "" if ok2 else "double Q-learning must update either table (each on some path)", where)
+            learn = changed_tables | {t for c_, _w, st_ in pending if st_ != "infeasible" for t in c_}      # every path was read: a table outside is written on none
+            ok2 = learn == set(tables)
+            ck.ob("R2-co-indexing", tq, "both-tables-learn", ok2, f"tables updated on some path: {sorted(learn)}", "" if ok2 else "double Q-learning must update either table (each on some path)", where)
         else:
             ck.ob("R1-footprint", tq, "learns", bool(changed_tables), f"tables updated on some path: {sorted(changed_tables)}", "" if changed_tables else "no path of an iteration updates the table", where)
     ck.floor("td-loops", n_loops, 4)
 
 
-def _names(txt):
-    import re
-    return re.findall(r"[A-Za-z_][A-Za-z_0-9]*", txt)
-
-
+# ---- Monte-Carlo control -------------------------------------------------------------------------------------------------------------
 def _monte_carlo(ck, repo, nf):
+    """The backward pass is read by roles, not by position or spelling: the loop-state component initialised with the table parameter is
+    Q, the one initialised with the count parameter is n, a constant-initialised one that is discounted is G; functional updates are
+    compared as (entry, change of the entry), so `.set(old + v)` is `.add(v)`; the episode length may be read from any of the three
+    equally long episode arrays, as `.shape[0]` or `len()`."""
     q = A + "monte_carlo.update"
     fn = repo.func(q)
     mi = fn._module
-    body = next((n for n in fn.body if isinstance(n, ast.FunctionDef)), None)
-    ck.need(body is not None, f"{q}: loop body function not found (anchor vanished)")
-    uses = [c for c in ast.walk(fn) if isinstance(c, ast.Call) and any(isinstance(a_, ast.Name) and a_.id == body.name for a_ in c.args)]
-    ck.need(len(uses) == 1 and dotted(uses[0].func).endswith("fori_loop") and len(uses[0].args) == 4 and isinstance(uses[0].args[2], ast.Name) and uses[0].args[2].id == body.name,
-            f"{q}: the backward pass is not a jax.lax.fori_loop(lo, hi, body, init) (unrecognised form)")
+    Qp, Np, Rw, Ob, Ac, Gm = _params_by_role(fn, q, ["q_table", "n_visits", "rewards", "observations", "actions", "gamma"])
+    penv = {p_: Poly.atom(p_, {p_}, {p_}) for p_ in param_names(fn)}
+    ocfg = nf.cfg_of(fn)
+    osc = Scope(ocfg, mi, penv, q)
+    calls = [(n, c) for n in ocfg.nodes if n.ast is not None and n.kind == "stmt" and not isinstance(n.ast, ast.FunctionDef) for c in ast.walk(n.ast)
+             if isinstance(c, ast.Call) and isinstance(c.func, (ast.Name, ast.Attribute)) and (repo.resolve_expr(mi, c.func) or dotted(c.func)).split(".")[-1] == "fori_loop"]
+    ck.need(len(calls) == 1, f"{q}: the backward pass is not one jax.lax.fori_loop(lo, hi, body, init) (unrecognised form)")
+    node, call = calls[0]
+    sig = ["lower", "upper", "body_fun", "init_val"]
+    ck.need(len(call.args) <= 4 and not any(isinstance(a_, ast.Starred) for a_ in call.args) and all(k.arg in sig[len(call.args):] for k in call.keywords),
+            f"{q}: fori_loop arguments not bound (unrecognised form)")
+    bound = dict(zip(sig, call.args))
+    bound.update({k.arg: k.value for k in call.keywords})
+    ck.need(set(bound) == set(sig), f"{q}: fori_loop arguments not bound (unrecognised form)")
+    bf = bound["body_fun"]
+    body = next((n for n in fn.body if isinstance(n, ast.FunctionDef) and isinstance(bf, ast.Name) and n.name == bf.id), None)
+    ck.need(body is not None, f"{q}: loop body function not found (unrecognised form)")
     body._module = mi
     cfg = nf.cfg_of(body)
     bp = positional_params(body)
-    ck.need(len(bp) == 2, f"{q}: fori_loop body must take (i, state)")
+    ck.need(len(bp) == 2, f"{q}: fori_loop body must take (i, state) (unrecognised form)")
     i, st = bp
     env = {i: Poly.atom(i, {i}, {i}), st: Poly.atom(st, {st}, {st})}
     # closure variables of the loop body: single top-level assignments of the enclosing function (ep_len = rewards.shape[0], ...)
-    ocfg = nf.cfg_of(fn)
-    osc = Scope(ocfg, mi, {p_: Poly.atom(p_, {p_}, {p_}) for p_ in param_names(fn)}, q)
-    local_stores = {x.id for x in ast.walk(body) if isinstance(x, ast.Name) and isinstance(x.ctx, ast.Store)} | set(bp)
-    for top in fn.body:
-        if isinstance(top, ast.Assign) and len(top.targets) == 1 and isinstance(top.targets[0], ast.Name) and top.targets[0].id not in local_stores:
-            nm = top.targets[0].id
-            if sum(1 for x in ast.walk(fn) if isinstance(x, ast.Name) and x.id == nm and isinstance(x.ctx, ast.Store)) == 1:
-                env[nm] = nf.poly(top.value, osc, ocfg.stmt_node[id(top)])
+    env.update({k_: v_ for k_, v_ in closure_env(nf, fn, body, mi, penv, q).items() if k_ not in env})
     sc = Scope(cfg, mi, env, q + ".<locals>." + body.name)
     rets = [n for n in cfg.nodes if n.kind == "stmt" and isinstance(n.ast, ast.Return)]
-    ck.need(len(rets) == 1, f"{q}: body has {len(rets)} returns")
+    ck.need(len(rets) == 1, f"{q}: body has {len(rets)} returns (unrecognised form)")
     rp = nf.poly(rets[0].ast.value, sc, rets[0].id)
-    ck.need(rp.elems is not None, f"{q}: body must return the loop state tuple")
-    if len(rp.elems) != 3:
-        def advances_state(e):
-            m_ = nf.meta.get(e.single_atom() or "")
-            if not m_ or "at" not in m_ or m_["at"]["op"] != "add" or not m_.get("args") or m_["args"][0].canon() != "1":
-                return False
-            return m_["at"]["base"].canon().startswith(f"{st}[")     # the updated array is a component of the loop state
-        inbody = any(advances_state(e) for e in rp.elems)
-        if not inbody:
-            ck.ob("R3-monte-carlo", q, "body:n'", False, f"loop state has {len(rp.elems)} components, none of them a visit count advanced by one",
-                  "the visit count is not advanced inside the backward loop: every step must divide by the number of visits *so far* (running mean), not by a count computed elsewhere", loc(mi, body))
-            return
-        raise AnalysisError(f"{q}: loop state arity {len(rp.elems)} (unrecognised idiom)")
+    init = nf.poly(bound["init_val"], osc, node.id)
+    ck.need(rp.elems is not None and init.elems is not None and len(rp.elems) == len(init.elems), f"{q}: loop state is not a tuple display of one length in the body and at the call (unrecognised form)")
+    lo, hi = nf.poly(bound["lower"], osc, node.id), nf.poly(bound["upper"], osc, node.id)
     ssc = Scope(None, mi, env, q)
-    idx = f"rewards.shape[0] - 1 - {i}"
-    o, a, r = f"observations[{idx}]", f"actions[{idx}]", f"rewards[{idx}]"
-    G = f"({r} + gamma * {st}[2])"
-    N = f"{st}[1].at[{o}, {a}].add(1)"
-    want = [f"{st}[0].at[{o}, {a}].add(1.0 / {N}[{o}, {a}] * ({G} - {st}[0][{o}, {a}]))", N, G]
-    names = ["Q' = Q.at[s,a].add((G' - Q[s,a]) / n'[s,a])", "n' = n.at[s,a].add(1)", "G' = r + gamma * G"]
-    for k in range(3):
-        w = nf.poly(parse_expr(want[k]), ssc, None)
-        ok = rp.elems[k] == w
-        ck.ob("R3-monte-carlo", q, f"body:{names[k].split(' ')[0]}", ok, f"{rp.elems[k].canon()[:150]}", "" if ok else f"expected {names[k]} with idx = len-1-i, i.e. `{w.canon()[:150]}`", loc(mi, body))
-    # fori_loop(0, ep_len, body, (q_table, n_visits, 0.0)); ep_len = rewards.shape[0]
-    ocfg = nf.cfg_of(fn)
-    osc = Scope(ocfg, mi, {p: Poly.atom(p, {p}, {p}) for p in param_names(fn)}, q)
-    calls = [(n, c) for n in ocfg.nodes if n.ast is not None and n.kind == "stmt" for c in ast.walk(n.ast) if isinstance(c, ast.Call) and dotted(c.func).endswith("fori_loop")]
-    ck.need(len(calls) == 1, f"{q}: fori_loop call not found")
-    n, c = calls[0]
-    args = [nf.poly(x, osc, n.id).canon() for x in c.args]
-    ok = len(args) == 4 and args[0] == "0" and args[1] == "rewards.shape[0]" and args[3] == "(q_table, n_visits, 0)"
-    ck.ob("R3-monte-carlo", q, "loop-bounds-and-init", ok, f"fori_loop({', '.join(args)[:120]})", "" if ok else "expected fori_loop(0, len(rewards), body, (q_table, n_visits, 0.0))", loc(mi, c))
+    P = lambda txt: nf.poly(parse_expr(txt), ssc, None)
+    where = loc(mi, body)
+    kQ = [k for k, e in enumerate(init.elems) if e == penv[Qp]]
+    kN = [k for k, e in enumerate(init.elems) if e == penv[Np]]
+    ck.need(len(kQ) == 1 and len(kN) <= 1, f"{q}: the loop-state component that carries `{Qp}` is not identified (unrecognised form)")
+    kQ = kQ[0]
+    edQ = _entry_delta(nf, rp.elems[kQ])
+    if not kN:
+        # no component carries the counts.  Evidence of a count that does not run with the loop: the change of Q is built from the count
+        # parameter itself (a value fixed before the loop)
+        if edQ is not None and Np in ingredient_tokens(edQ[2]):
+            ck.ob("R3-monte-carlo", q, "body:n'", False, f"loop state has {len(rp.elems)} components, none of them initialised with `{Np}`; change of Q = {edQ[2].canon()[:110]}",
+                  "the visit count is not advanced inside the backward loop: every step must divide by the number of visits *so far* (running mean), not by a count computed elsewhere", where)
+            return
+        raise AnalysisError(f"{q}: no loop-state component is initialised with `{Np}` (unrecognised idiom)")
+    kN = kN[0]
+    consts = [k for k, e in enumerate(init.elems) if e.is_const() and k not in (kQ, kN)]
+    lens = [f"{X}.shape[0]" for X in (Rw, Ob, Ac)] + [f"len({X})" for X in (Rw, Ob, Ac)]
+    whole = rp.canon()
+    from_end = "0"      # x[-1 - i] is x[len(x) - 1 - i]: counting from the end needs no length
+
+    def reading(Ltxt, kG):
+        idx = f"({Ltxt} - 1 - {i})"
+        o, a, r = P(f"{Ob}[{idx}]"), P(f"{Ac}[{idx}]"), P(f"{Rw}[{idx}]")
+        at = f"{o.canon()}, {a.canon()}"
+        return {"L": P(Ltxt), "kG": kG, "idx": at, "G": r + P(f"{Gm} * {st}[{kG}]"), "Qold": Poly.atom(f"{st}[{kQ}][{at}]"), "Nold": Poly.atom(f"{st}[{kN}][{at}]")}
+    edN = _entry_delta(nf, rp.elems[kN])
+    if edQ is None or edN is None or edQ[0] != P(f"{st}[{kQ}]") or edN[0] != P(f"{st}[{kN}]"):
+        raise AnalysisError(f"{q}: Q' / n' are not single-entry updates of their loop-state components: `{rp.elems[kQ].canon()[:70]}`, `{rp.elems[kN].canon()[:70]}` (unrecognised form)")
+    ck.need(consts, f"{q}: no loop-state component starts from a constant return (unrecognised form)")
+    best = None
+    for kG in consts:
+        for Ltxt in lens + [from_end]:
+            rd = reading(Ltxt, kG)
+            score = (int(rp.elems[kG] == rd["G"]) + int(edN[1] == rd["idx"]) + int(edQ[1] == rd["idx"]), int(Ltxt != from_end and rd["L"].canon() in whole))
+            if best is None or score > best[0]:
+                best = (score, rd)
+    rd = best[1]
+    kG = rd["kG"]
+    foreign = [P(t).canon() for t in lens if P(t) != rd["L"] and P(t).canon() in whole]      # the length is read in more than one way
+
+    def decide(key, ok, got, want, extra=()):
+        """a mismatch is a violation when the value is made of the documented ingredients (combined differently), undecided otherwise"""
+        if not ok and (foreign or not _evidence(got, want, extra)):
+            raise AnalysisError(f"{q}: {key} `{got.canon()[:140]}` (unrecognised form)")
+        return ok
+    names = {"Q'": "Q' = Q.at[s,a].add((G' - Q[s,a]) / n'[s,a])", "n'": "n' = n.at[s,a].add(1)", "G'": "G' = r + gamma * G"}
+    # n': the count of the visited entry advances by one
+    # (x[s][a] and x[s, a] are one spelling: both sides of every comparison are flattened)
+    dN = _flat(edN[2])
+    okN = decide("n'", edN[1] == rd["idx"] and dN == Poly.const(1), rp.elems[kN], P(f"{st}[{kN}].at[{rd['idx']}].add(1)"), ("set",))
+    # Q': a read of the new count table at the visited entry is n[s,a] + 1
+    read_new = Poly.atom(_flat_text(f"{rp.elems[kN].canon()}[{rd['idx']}]"))
+    n_new = _flat(rd["Nold"] + Poly.const(1)) if okN else read_new
+    dQ = _flat(edQ[2]).subst({read_new.single_atom(): n_new})
+    wantQd = _flat(rd["G"] - rd["Qold"]) * n_new.inv()
+    okQ = decide("Q'", edQ[1] == rd["idx"] and dQ == wantQd, Poly.atom(f"[{edQ[1]}] {dQ.canon()}"), Poly.atom(f"[{rd['idx']}] {wantQd.canon()} {read_new.canon()}"), ("set", "add", "at"))
+    gotG = _flat(rp.elems[kG])
+    okG = decide("G'", gotG == _flat(rd["G"]), gotG, _flat(rd["G"]))
+    for nm, ok, got, want in (("Q'", okQ, f"entry [{edQ[1][:60]}] changes by {dQ.canon()[:110]}", f"entry [{rd['idx'][:60]}] changes by {wantQd.canon()[:110]}"),
+                              ("n'", okN, f"entry [{edN[1][:60]}] changes by {dN.canon()[:40]}", f"entry [{rd['idx'][:60]}] changes by 1"),
+                              ("G'", okG, gotG.canon()[:150], rd["G"].canon()[:150])):
+        ck.ob("R3-monte-carlo", q, f"body:{nm}", ok, got, "" if ok else f"expected {names[nm]} with idx = len-1-i, i.e. `{want}`", where)
+    # fori_loop(0, ep_len, body, (q_table, n_visits, 0.0)); ep_len = the length of the episode arrays
+    parts = []      # (ok, evidence)
+    parts.append((lo == Poly.const(0), lo.is_const()))
+    parts.append((any(hi == P(t) for t in lens), _evidence(hi, P(lens[0])) and not foreign))
+    parts.append((init.elems[kG] == Poly.const(0), True))
+    ok = all(o_ for o_, _e in parts)
+    if not ok and not any(e_ for o_, e_ in parts if not o_):
+        raise AnalysisError(f"{q}: loop bounds `{lo.canon()[:40]}`, `{hi.canon()[:60]}` (unrecognised form)")
+    ck.ob("R3-monte-carlo", q, "loop-bounds-and-init", ok, f"fori_loop({lo.canon()[:30]}, {hi.canon()[:50]}, ..., {init.canon()[:80]})", "" if ok else "expected fori_loop(0, len(rewards), body, (q_table, n_visits, 0.0))", loc(mi, call))
 
 
+# ---- Dyna-Q ---------------------------------------------------------------------------------------------------------------------------
 def _dynaq(ck, repo, nf):
     # planning: every replayed transition (s, a) drawn from the visited pairs is completed by the model - s' = argmax P(.|s,a),
     # r = R(s,a,s') - and learned from with the greedy-successor update (the direct update of the real transition is read at loop
@@ -275,96 +494,173 @@ def _dynaq(ck, repo, nf):
     fn = repo.func(pq)
     mi = fn._module
     cfg = nf.cfg_of(fn)
-    P = param_names(fn)
-    ck.need(len(P) >= 9 and P[0] == "model_transition" and P[1] == "model_reward" and "q_table" in P, f"{pq}: signature changed (anchor vanished)")
-    MT, MR = P[0], P[1]
+    MT, MR, OB, AB, GM, LR, QT = _params_by_role(fn, pq, ["model_transition", "model_reward", "obs_buffer", "act_buffer", "gamma", "learning_rate", "q_table"])
     loops = [n for n in cfg.nodes if n.kind == "for"]
     ck.need(len(loops) == 1, f"{pq}: expected one planning loop (unrecognised form)")
     lp = loops[0]
-    env0 = {p_: Poly.atom(p_, {p_}, {p_}) for p_ in P}
+    env0 = {p_: Poly.atom(p_, {p_}, {p_}) for p_ in param_names(fn)}
     paths = enumerate_paths(cfg, lp.id, {lp.id}, first_label=True)
-    ck.need(len(paths) >= 1, f"{pq}: loop body not readable")
+    ck.need(len(paths) >= 1, f"{pq}: loop body not readable (unrecognised form)")
     where = loc(mi, lp.ast)
+    # the values bound before the loop (the sampled positions, the gathered buffers) are read along the way to it
+    pres = enumerate_paths(cfg, cfg.entry, {lp.id})
+    ck.need(len(pres) == 1, f"{pq}: {len(pres)} ways to the planning loop (unrecognised form)")
+    pe0 = PathEval(nf, cfg, mi, pq, env0).run(pres[0][:-1])
     for pth in paths:
-        tg = lp.ast.target
-        ck.need(isinstance(tg, (ast.Tuple, ast.List)) and len(tg.elts) == 2 and all(isinstance(x, ast.Name) for x in tg.elts), f"{pq}: the planning loop does not iterate over (observation, action) pairs (unrecognised form)")
-        pe = PathEval(nf, cfg, mi, pq, env0)
-        Sp, Ap = Poly.atom("S_"), Poly.atom("A_")
-        for k_, (nid, lab) in enumerate(pth[:-1]):
-            pe.step(nid, lab)
-            if k_ == 0:
-                pe.env[tg.elts[0].id], pe.env[tg.elts[1].id] = Sp, Ap
-        new = pe.env["q_table"]
+        pe = PathEval(nf, cfg, mi, pq, pe0.env)
+        pe.store = dict(pe0.store)
+        pe.run(pth[:-1])
+        new = pe.env[QT]
         au = _at_update(nf, new)
         if au is None:
             raise AnalysisError(f"{pq}: new table `{new.canon()[:100]}` is not a single-entry update (unrecognised form)")
         base, idx, op, val = au
-        ck.need(base == env0["q_table"], f"{pq}: update of `{base.canon()[:40]}` (unrecognised form)")
-        okidx = idx == "S_, A_"
-        if not okidx and not set(_names(idx)) <= {"S_", "A_"}:
-            raise AnalysisError(f"{pq}: update index `{idx[:60]}` (unrecognised form)")
-        ck.ob("R4-dyna-q", pq, "replayed-write-index", okidx, f"q_table.at[{idx}]", "" if okidx else "the replayed update must change the entry of the replayed (observation, action) pair", where)
+        ck.need(base == env0[QT], f"{pq}: update of `{base.canon()[:40]}` (unrecognised form)")
+        # the replayed pair is read off the entry that is written: a visited (observation, action) pair, i.e. the entries of the two
+        # buffers at one common index - however the loop walks over them (zip of the gathered buffers, an index, the sampled positions)
+        comps = _split_top(idx)
+        drawn = _same_draw(nf, comps[0], comps[1], OB, AB) if len(comps) == 2 else None
+        if drawn is None:
+            raise AnalysisError(f"{pq}: update index `{idx[:80]}` is not (entry of `{OB}`, entry of `{AB}`) at a common position (unrecognised form)")
+        X, Y = comps if drawn == "pair" else comps[::-1]
+        show = lambda t_: t_.replace(X, "S_").replace(_flat_text(X), "S_").replace(Y, "A_").replace(_flat_text(Y), "A_")
+        okidx = drawn == "pair"
+        ck.ob("R4-dyna-q", pq, "replayed-write-index", okidx, f"{QT}.at[{show(idx)}]", "" if okidx else "the replayed update must change the entry of the replayed (observation, action) pair", where)
+        Sp, Ap = Poly.atom(X), Poly.atom(Y)
         sce = Scope(None, mi, {**env0, "S_": Sp, "A_": Ap}, pq)
         Np = nf._mkcall("argmax", [nf.poly(parse_expr(f"{MT}[S_, A_]"), sce, None)], {})
         sce2 = Scope(None, mi, {**env0, "S_": Sp, "A_": Ap, "N_": Np}, pq)
         Rp = nf.poly(parse_expr(f"{MR}[S_, A_, N_]"), sce2, None)
-        row = nf.poly(parse_expr("q_table[N_]"), sce2, None)
+        row = nf.poly(parse_expr(f"{QT}[N_]"), sce2, None)
         greedy = nf._mkcall("argmax", [row], {})
         sce3 = Scope(None, mi, {**env0, "S_": Sp, "A_": Ap, "N_": Np, "R_": Rp, "G_": greedy}, pq)
-        read = nf.poly(parse_expr("q_table[S_, A_]"), sce3, None)
-        delta = val if op == "add" else val - read
-        want = nf.poly(parse_expr("learning_rate * (R_ + gamma * q_table[N_, G_] - q_table[S_, A_])"), sce3, None)
+        read = nf.poly(parse_expr(f"{QT}[S_, A_]"), sce3, None)
+        delta = _flat(val) if op == "add" else _flat(val) - _flat(read)
+        want = _flat(nf.poly(parse_expr(f"{LR} * (R_ + {GM} * {QT}[N_, G_] - {QT}[S_, A_])"), sce3, None))
         ok = delta == want
-        if not ok and not same_ingredients(delta, want):
-            raise AnalysisError(f"{pq}: replayed increment `{delta.canon()[:120]}` (unrecognised form)")
-        ck.ob("R4-dyna-q", pq, "replayed-transition", ok, f"increment = {delta.canon()[:150]}", "" if ok else f"replayed transitions must come from the learned model (s' = argmax P(.|s,a), r = R(s,a,s')) and be learned from with the greedy-successor update: expected `{want.canon()[:140]}`", where)
-        # the replayed pair is a visited (observation, action) pair: both drawn with the same index from the two buffers
-        it = nf.poly(lp.ast.iter, Scope(cfg, mi, env0, pq), lp.id).canon()
-        okp = P[2] in it and P[3] in it
-        if not okp:
-            raise AnalysisError(f"{pq}: planning loop iterates over `{it[:80]}` (unrecognised form)")
+        # (evidence is judged with the pair named by its roles: the text of the pair itself is not an ingredient of the update)
+        if not ok and not _evidence(Poly.atom(show(delta.canon())), Poly.atom(show(want.canon()))):
+            raise AnalysisError(f"{pq}: replayed increment `{show(delta.canon())[:120]}` (unrecognised form)")
+        ck.ob("R4-dyna-q", pq, "replayed-transition", ok, f"increment = {show(delta.canon())[:150]}", "" if ok else f"replayed transitions must come from the learned model (s' = argmax P(.|s,a), r = R(s,a,s')) and be learned from with the greedy-successor update: expected `{show(want.canon())[:140]}`", where)
     # train_dynaq plans after learning from the real transition
     tq = A + "dynaq.train_dynaq"
     tfn = repo.func(tq)
     hits = [c for c in ast.walk(tfn) if isinstance(c, ast.Call) and isinstance(c.func, (ast.Name, ast.Attribute)) and repo.resolve_expr(tfn._module, c.func) == pq]
-    ck.ob("R4-dyna-q", tq, "plans-from-model", len(hits) == 1, f"{len(hits)} call(s) of planning", "" if len(hits) == 1 else "Dyna-Q replays model transitions once per real step", loc(tfn._module, tfn))
-    # model_update footprint
+    # (a missing or a repeated call is not read further: whether the table still passes through the model replay is then not decided)
+    ck.need(len(hits) == 1, f"{tq}: {len(hits)} call(s) of planning (unrecognised form)")
+    ck.ob("R4-dyna-q", tq, "plans-from-model", True, "1 call(s) of planning", "", loc(tfn._module, tfn))
+
+
+def _dyna_model(ck, repo, nf):
+    """model_update is read through its stores (per path): `model.transition` / `model.reward` end as functional updates of themselves."""
+    from ..sympath import enumerate_paths, PathEval
     q = A + "dynaq.model_update"
     fn = repo.func(q)
     mi = fn._module
-    writes = _at_writes(fn)
-    tw = [w for w in writes if "transition" in ast.unparse(w.func.value.value.value)]
-    rw = [w for w in writes if "reward" in ast.unparse(w.func.value.value.value)]
-    ck.need(len(tw) == 1 and len(rw) == 1, f"{q}: expected one transition write and one reward write")
-    w = tw[0]
-    idx = w.func.value.slice
-    n_idx = len(idx.elts) if isinstance(idx, ast.Tuple) else 1
-    mcfg = nf.cfg_of(fn)
-    msc = Scope(mcfg, mi, {p: Poly.atom(p, {p}, {p}) for p in param_names(fn)}, q)
-    val = nf.poly(w.args[0], msc, mcfg.node_of(w).id).canon()
-    aggregates_row = "sum(" in val
-    ok = (n_idx == 2 and aggregates_row) or (n_idx == 3 and not aggregates_row)
-    ck.ob("R4-dyna-q", q, "transition-row-footprint", ok, f"`{short(w, 110)}`",
-          "" if ok else "the stored probability is normalised by the row total, which changes with every visit of (s,a), but only one entry of the row is rewritten: "
-                        "the other entries keep stale values and P(.|s,a) no longer sums to one", loc(mi, w))
-    if n_idx == 2:
-        cfg = nf.cfg_of(fn)
-        sc = Scope(cfg, mi, {p: Poly.atom(p, {p}, {p}) for p in param_names(fn)}, q)
-        v = nf.poly(w.args[0], sc, cfg.node_of(w).id).canon()
-        okv = "counter.transition_counter[obs][act]" in v and "sum(" in v and "^-1" in v
-        ck.ob("R4-dyna-q", q, "transition-row-value", okv, f"row = {v[:120]}", "" if okv else "row must be counts(s,a,.) / sum(counts(s,a,.))", loc(mi, w))
-    w = rw[0]
-    okr = ast.unparse(w.func.value.slice) in ("(obs, act, next_obs)", "obs, act, next_obs")
-    rv = nf.poly(w.args[0], msc, mcfg.node_of(w).id).canon()
-    H = "counter.reward_history[obs][act][next_obs]"
-    okr = okr and rv in (f"mean({H})", f"len({H})^-1*sum({H})")
-    ck.ob("R4-dyna-q", q, "reward-mean", okr, f"`{short(w, 100)}`", "" if okr else "R(s,a,s') must be the mean of the rewards observed for that transition", loc(mi, w))
-    # counter_update
+    M, C, O, Ac, Nx = _params_by_role(fn, q, ["model", "counter", "obs", "act", "next_obs"])
+    cfg = nf.cfg_of(fn)
+    env0 = {p_: Poly.atom(p_, {p_}, {p_}) for p_ in param_names(fn)}
+    ssc = Scope(None, mi, env0, q)
+    P = lambda txt: nf.poly(parse_expr(txt), ssc, None)
+    # (nested lists and arrays made of them are indexed in two spellings, x[s][a] and x[s, a]: one spelling on both sides)
+    row = _flat(P(f"{C}.transition_counter[{O}][{Ac}]"))
+    tot = nf._libcall("sum", [row], {}, None)
+    hist = _flat(P(f"{C}.reward_history[{O}][{Ac}][{Nx}]"))
+    idx2, idx3 = f"{O}, {Ac}", f"{O}, {Ac}, {Nx}"
+    where = loc(mi, fn)
+    try:
+        paths = enumerate_paths(cfg, cfg.entry, {cfg.exit}, max_paths=200)
+    except RuntimeError:
+        raise AnalysisError(f"{q}: too many paths")
+    ck.need(paths, f"{q}: no path (unrecognised form)")
+    seen = set()
+    for pth in paths:
+        pe = PathEval(nf, cfg, mi, q, env0)
+        pe.run(pth)
+        T, R = pe.store.get(f"{M}.transition"), pe.store.get(f"{M}.reward")
+        ck.need(T is not None and R is not None, f"{q}: `{M}.transition` / `{M}.reward` are not assigned on every path (unrecognised form)")
+        if (T, R) in seen:
+            continue
+        seen.add((T, R))
+        au, ar = _at_update(nf, T), _at_update(nf, R)
+        if au is None or ar is None or au[0] != P(f"{M}.transition") or ar[0] != P(f"{M}.reward") or au[2] != "set" or ar[2] != "set":
+            raise AnalysisError(f"{q}: model fields are not rewritten with .at[...].set(...) of themselves: `{T.canon()[:80]}`, `{R.canon()[:80]}` (unrecognised form)")
+        # transition: a value normalised by the row total changes with every visit of (s, a), so the whole row has to be rewritten
+        _b, idx, _op, val = au
+        val = _flat(val)
+        idx = re.sub(r"(, :)+$", "", idx)        # x.at[s, a, :] is the row x.at[s, a]
+        construct = f"`{M}.transition.at[{idx}].set({val.canon()[:90]})`"
+        uses_row_total = any(tot.canon() in a_ for a_ in val.atoms())
+        if idx == idx2:
+            ck.ob("R4-dyna-q", q, "transition-row-footprint", True, construct, "", where)
+            want = row * tot.inv()
+            okv = val == want
+            if not okv and not _evidence(val, want):
+                raise AnalysisError(f"{q}: transition row `{val.canon()[:120]}` (unrecognised form)")
+            ck.ob("R4-dyna-q", q, "transition-row-value", okv, f"row = {val.canon()[:120]}", "" if okv else "row must be counts(s,a,.) / sum(counts(s,a,.))", where)
+        elif idx == idx3 and uses_row_total:
+            ck.ob("R4-dyna-q", q, "transition-row-footprint", False, construct,
+                  "the stored probability is normalised by the row total, which changes with every visit of (s,a), but only one entry of the row is rewritten: "
+                  "the other entries keep stale values and P(.|s,a) no longer sums to one", where)
+        elif idx not in (idx2, idx3) and ":" not in idx and set(_names(idx)) <= {O, Ac, Nx} and _evidence(val, row * tot.inv()):
+            ck.ob("R4-dyna-q", q, "transition-row-value", False, construct, "the row that is rewritten is not P(.|obs, act)", where)
+        else:
+            raise AnalysisError(f"{q}: transition written at `{idx[:50]}` with `{val.canon()[:90]}` (unrecognised form)")
+        # reward: mean of the rewards observed for exactly this transition
+        _b, idx, _op, val = ar
+        val = _flat(val)
+        construct = f"`{M}.reward.at[{idx}].set({val.canon()[:90]})`"
+        want1 = nf._libcall("mean", [hist], {}, None)
+        want2 = nf._libcall("sum", [hist], {}, None) * nf._libcall("len", [hist], {}, None).inv()
+        if idx != idx3 and (":" in idx or not set(_names(idx)) <= {O, Ac, Nx}):
+            raise AnalysisError(f"{q}: reward written at `{idx[:50]}` (unrecognised form)")
+        okr = idx == idx3 and val in (want1, want2)
+        by_row_total = any(tot.canon() in a_ for a_ in val.atoms())     # divides by the visits of (s,a) over all successors: another quantity
+        if not okr and idx == idx3 and not by_row_total and not _evidence(val, want1, ("sum", "len")):
+            raise AnalysisError(f"{q}: stored reward `{val.canon()[:120]}` (unrecognised form)")
+        ck.ob("R4-dyna-q", q, "reward-mean", okr, construct, "" if okr else "R(s,a,s') must be the mean of the rewards observed for that transition", where)
+
+
+def _dyna_counter(ck, repo, nf):
+    """counter_update is read through its effects (per path): the entry of the observed transition grows by one, its reward is appended once."""
+    from ..sympath import enumerate_paths, PathEval
     q = A + "dynaq.counter_update"
     fn = repo.func(q)
-    txt = [ast.unparse(s) for s in fn.body if not (isinstance(s, ast.Expr) and isinstance(s.value, ast.Constant))]
-    ok = "counter.transition_counter[obs][act][next_obs] += 1" in txt and "counter.reward_history[obs][act][next_obs].append(reward)" in txt
-    ck.ob("R4-dyna-q", q, "counts", ok, " ; ".join(txt)[:140], "" if ok else "the counter must count the observed transition once and record its reward", loc(fn._module, fn))
+    mi = fn._module
+    C, O, Ac, Rr, Nx = _params_by_role(fn, q, ["counter", "obs", "act", "reward", "next_obs"])
+    cfg = nf.cfg_of(fn)
+    env0 = {p_: Poly.atom(p_, {p_}, {p_}) for p_ in param_names(fn)}
+    kT, kH = f"{C}.transition_counter[{O}][{Ac}][{Nx}]", f"{C}.reward_history[{O}][{Ac}][{Nx}]"
+    roles = {C, O, Ac, Nx, "transition_counter", "reward_history"}
+    try:
+        paths = enumerate_paths(cfg, cfg.entry, {cfg.exit}, max_paths=200)
+    except RuntimeError:
+        raise AnalysisError(f"{q}: too many paths")
+    ck.need(paths, f"{q}: no path (unrecognised form)")
+    for pth in paths:
+        pe = PathEval(nf, cfg, mi, q, env0)
+        pe.run(pth)
+        evidence, undecided = [], []
+        got = pe.store.get(kT)
+        want = Poly.atom(kT) + Poly.const(1)
+        others = [k_ for k_ in pe.store if k_ != kT and k_.startswith(f"{C}.transition_counter[")]
+        if got is None or others:
+            wrong = [k_ for k_ in others if set(_names(k_)) <= roles]
+            (evidence if wrong and len(wrong) == len(others) else undecided).append(f"count stored at {others or 'no entry'}")
+        elif got != want:
+            (evidence if _evidence(got, want) else undecided).append(f"count becomes {got.canon()[:60]}")
+        apps = [(k_, v_) for _n, k_, v_ in pe.appended if k_.startswith(f"{C}.reward_history")]
+        if not apps:
+            undecided.append("reward history not grown by append")
+        elif len(apps) != 1 or apps[0][0] != kH:
+            (evidence if all(set(_names(k_)) <= roles for k_, _v in apps) else undecided).append(f"appends to {[k_ for k_, _v in apps]}")
+        elif apps[0][1] != env0[Rr]:
+            (evidence if _evidence(apps[0][1], env0[Rr]) else undecided).append(f"appends {apps[0][1].canon()[:60]}")
+        if undecided and not evidence:
+            raise AnalysisError(f"{q}: {'; '.join(undecided)} (unrecognised form)")
+        ok = not evidence
+        ck.ob("R4-dyna-q", q, "counts", ok, f"{kT} -> {got.canon()[:50] if got is not None else '?'} ; appended {[(k_, v_.canon()[:20]) for k_, v_ in apps]}"[:170],
+              "" if ok else "the counter must count the observed transition once and record its reward: " + "; ".join(evidence), loc(fn._module, fn))
 
 
 def _td_error(ck, repo, nf):
@@ -372,9 +668,17 @@ def _td_error(ck, repo, nf):
     ck.note("td_error is checked through inlining at its call sites (no frozen form of the helper itself)")
     q = "rl_blox.blox.value_policy.greedy_policy"
     fn = repo.func(q)
+    T, O = _params_by_role(fn, q, ["q_table", "observation"])
     env = {p: Poly.atom(p, {p}, {p}) for p in param_names(fn)}
-    got = nf.return_poly(q, env).canon()
-    ck.ob("R2-co-indexing", q, "argmax-of-row", got == "argmax(q_table[observation])", f"greedy_policy = {got}", "" if got == "argmax(q_table[observation])" else "greedy selection must be argmax over the row of the observation", loc(fn._module, fn))
+    try:
+        got = _flat(nf.return_poly(q, env))
+    except ValueError as e:
+        raise AnalysisError(f"{q}: {e} (unrecognised form)")
+    want = nf._mkcall("argmax", [nf.poly(parse_expr(f"{T}[{O}]"), Scope(None, fn._module, env, q), None)], {})
+    ok = got == want
+    if not ok and not _evidence(got, want):
+        raise AnalysisError(f"{q}: greedy selection `{got.canon()[:100]}` (unrecognised form)")
+    ck.ob("R2-co-indexing", q, "argmax-of-row", ok, f"greedy_policy = {got.canon()[:120]}", "" if ok else "greedy selection must be argmax over the row of the observation", loc(fn._module, fn))
 
 
 def run(ck, repo: Repo, tier: str):
@@ -383,13 +687,21 @@ def run(ck, repo: Repo, tier: str):
     ck.guard(_td_error, ck, repo, nf)
     ck.guard(_monte_carlo, ck, repo, nf)
     ck.guard(_dynaq, ck, repo, nf)
+    ck.guard(_dyna_model, ck, repo, nf)
+    ck.guard(_dyna_counter, ck, repo, nf)
 
 
+_V = "rl_blox/blox/value_policy.py"
 _Q, _S, _D, _M, _Y = "rl_blox/algorithm/q_learning.py", "rl_blox/algorithm/sarsa.py", "rl_blox/algorithm/double_q_learning.py", "rl_blox/algorithm/monte_carlo.py", "rl_blox/algorithm/dynaq.py"
+_Q_CALL = "        q_table = _update_policy(\n            q_table,\n            observation,\n            action,\n            reward,\n            next_observation,\n            next_action,\n            gamma,\n            terminated,\n            learning_rate,\n        )\n"
+_Q_BRANCH = ("        if terminated:\n            target = reward\n        else:\n            target = reward + gamma * q_table[next_observation, next_action]\n"
+             "        q_table = q_table.at[observation, action].add(\n            learning_rate * (target - q_table[observation, action])\n        )\n")
+_DQL_REST = "                observation,\n                action,\n                reward,\n                next_observation,\n                gamma,\n                learning_rate,\n                terminated,\n            )\n"
 MUTANTS = [
     {"id": "c14-q-wrong-next-index", "file": _Q, "rule": "R1", "find": "q_table[next_observation, next_action]", "replace": "q_table[next_observation, action]"},
     {"id": "c14-q-write-next", "file": _Q, "rule": "R1", "find": "    q_table = q_table.at[observation, action].add(learning_rate * error)", "replace": "    q_table = q_table.at[next_observation, action].add(learning_rate * error)"},
     {"id": "c14-q-no-mask", "file": _Q, "rule": "R1", "find": "    next_val = (1 - terminated) * q_table[next_observation, next_action]", "replace": "    next_val = q_table[next_observation, next_action]"},
+    {"id": "c14-q-mask-branch-swapped", "file": _Q, "rule": "R1", "find": _Q_CALL, "replace": _Q_BRANCH.replace("if terminated:", "if not terminated:")},
     {"id": "c14-q-sign", "file": "rl_blox/util/error_functions.py", "rule": "R1", "find": "    return reward + gamma * next_value - value", "replace": "    return reward + gamma * next_value + value"},
     {"id": "c14-q-greedy-at-obs", "file": _Q, "rule": "R", "find": "        next_action = greedy_policy(q_table, next_observation)", "replace": "        next_action = greedy_policy(q_table, observation)"},
     {"id": "c14-q-two-writes", "file": _Q, "rule": "R1", "find": "    q_table = q_table.at[observation, action].add(learning_rate * error)\n", "replace": "    q_table = q_table.at[observation, action].add(learning_rate * error)\n    q_table = q_table.at[next_observation, next_action].add(0.0 * error)\n"},
@@ -404,6 +716,18 @@ MUTANTS = [
     {"id": "c14-mc-init", "file": _M, "rule": "R3", "find": "        0, ep_len, _update_body, (q_table, n_visits, 0.0)", "replace": "        1, ep_len, _update_body, (q_table, n_visits, 0.0)"},
     {"id": "c14-dyna-set-no-read", "file": _Y, "rule": "R1", "find": "        q_table[obs, act] + learning_rate * q_target\n", "replace": "        learning_rate * q_target\n"},
     {"id": "c14-dyna-planning-reward-row", "file": _Y, "rule": "R4", "find": "        reward = model_reward[obs, act, next_obs]", "replace": "        reward = model_reward[obs, act, obs]"},
+    {"id": "c14-dql-both-tables", "file": _D, "rule": "R1", "find": "        else:\n            q_table2 = _dql_update(", "replace": "        if True:\n            q_table2 = _dql_update("},
+    {"id": "c14-dql-second-table-never-learns", "file": _D, "rule": "R2", "find": "        else:\n            q_table2 = _dql_update(\n                subkey2,\n                q_table2,\n                q_table1,", "replace": "        else:\n            q_table1 = _dql_update(\n                subkey2,\n                q_table1,\n                q_table2,"},
+    {"id": "c14-dql-skips-learning", "file": _D, "rule": "R1", "find": "        else:\n            q_table2 = _dql_update(", "replace": "        elif truncated:\n            q_table2 = _dql_update("},
+    {"id": "c14-greedy-not-the-row", "file": _V, "rule": "R2", "find": "    return jnp.argmax(q_table[observation])", "replace": "    return jnp.argmax(q_table)[observation]"},
+    {"id": "c14-mc-hoisted-count", "file": _M, "rule": "R3", "edits": [("    def _update_body(i, state):\n        q_table, n_visits, ep_return = state", "    n_visits = n_visits.at[observations, actions].add(1)\n\n    def _update_body(i, state):\n        q_table, ep_return = state"),
+                                                                    ("        n_visits = n_visits.at[obs, act].add(1)\n", ""), ("        return (q_table, n_visits, ep_return)", "        return (q_table, ep_return)"),
+                                                                    ("    q_table, n_visits, _ = jax.lax.fori_loop(\n        0, ep_len, _update_body, (q_table, n_visits, 0.0)", "    q_table, _ = jax.lax.fori_loop(\n        0, ep_len, _update_body, (q_table, 0.0)")]},
+    {"id": "c14-mc-short-loop", "file": _M, "rule": "R3", "find": "        0, ep_len, _update_body, (q_table, n_visits, 0.0)", "replace": "        0, ep_len - 1, _update_body, (q_table, n_visits, 0.0)"},
+    {"id": "c14-dyna-single-entry-of-row", "file": _Y, "rule": "R4", "find": "    model.transition = model.transition.at[obs, act].set(counts / sum(counts))", "replace": "    model.transition = model.transition.at[obs, act, next_obs].set(\n        counts[next_obs] / sum(counts)\n    )"},
+    {"id": "c14-dyna-count-wrong-successor", "file": _Y, "rule": "R4", "find": "    counter.transition_counter[obs][act][next_obs] += 1", "replace": "    counter.transition_counter[obs][act][obs] += 1"},
+    {"id": "c14-dyna-reward-over-row-visits", "file": _Y, "rule": "R4", "find": "        np.mean(counter.reward_history[obs][act][next_obs])", "replace": "        sum(counter.reward_history[obs][act][next_obs]) / sum(counts)"},
+    {"id": "c14-dyna-planning-entry-swapped", "file": _Y, "rule": "R4", "find": "        q_table = q_learning_update(\n            obs,\n            act,\n            reward,\n            next_obs,", "replace": "        q_table = q_learning_update(\n            act,\n            obs,\n            reward,\n            next_obs,"},
     {"id": "c14-dyna-reward-last", "file": _Y, "rule": "R4", "find": "        np.mean(counter.reward_history[obs][act][next_obs])", "replace": "        counter.reward_history[obs][act][next_obs][-1]"},
 ]
 BENIGN = [
@@ -412,4 +736,24 @@ BENIGN = [
     {"id": "c14-b-q-not-done", "file": _Q, "find": "    next_val = (1 - terminated) * q_table[next_observation, next_action]\n    error = td_error(reward, gamma, val, next_val)", "replace": "    not_done = 1 - terminated\n    error = td_error(reward, gamma * not_done, val, q_table[next_observation, next_action])"},
     {"id": "c14-b-mc-div", "file": _M, "find": "            1.0 / n_visits[obs, act] * pred_error", "replace": "            pred_error / n_visits[obs, act]"},
     {"id": "c14-b-dyna-add-form", "file": _Y, "find": "    return q_table.at[obs, act].set(\n        q_table[obs, act] + learning_rate * q_target\n    )", "replace": "    return q_table.at[obs, act].add(learning_rate * q_target)"},
+    {"id": "c14-b-q-chained-index", "file": _Q, "edits": [("    val = q_table[observation, action]", "    val = q_table[observation][action]"), ("    next_val = (1 - terminated) * q_table[next_observation, next_action]", "    next_val = (1 - terminated) * q_table[next_observation][next_action]")]},
+    {"id": "c14-b-q-two-adds-same-entry", "file": _Q, "find": "    q_table = q_table.at[observation, action].add(learning_rate * error)", "replace": "    q_table = q_table.at[observation, action].add(learning_rate * (reward + gamma * next_val))\n    q_table = q_table.at[observation, action].add(-learning_rate * val)"},
+    {"id": "c14-b-greedy-row-colon", "file": _V, "find": "    return jnp.argmax(q_table[observation])", "replace": "    return jnp.argmax(q_table[observation, :])"},
+    {"id": "c14-b-sarsa-kw-select", "file": _S, "find": "        next_action = epsilon_greedy_policy(\n            q_table, next_observation, epsilon, subkey\n        )", "replace": "        next_action = epsilon_greedy_policy(\n            key=subkey, observation=int(next_observation), q_table=q_table, epsilon=epsilon\n        )"},
+    {"id": "c14-b-dql-complementary-tests", "file": _D, "find": "        else:\n            q_table2 = _dql_update(", "replace": "        if val >= 0.5:\n            q_table2 = _dql_update("},
+    {"id": "c14-b-mc-roles-reordered-len", "file": _M, "edits": [("    ep_len = rewards.shape[0]", "    ep_len = len(observations)"), ("        q_table, n_visits, ep_return = state", "        n_visits, ep_return, q_table = state"), ("        return (q_table, n_visits, ep_return)", "        return (n_visits, ep_return, q_table)"),
+                                                                 ("    q_table, n_visits, _ = jax.lax.fori_loop(\n        0, ep_len, _update_body, (q_table, n_visits, 0.0)", "    n_visits, _, q_table = jax.lax.fori_loop(\n        0, rewards.shape[0], init_val=(n_visits, 0.0, q_table), body_fun=_update_body")]},
+    {"id": "c14-b-mc-set-forms", "file": _M, "edits": [("        n_visits = n_visits.at[obs, act].add(1)", "        n_visits = n_visits.at[obs, act].set(n_visits[obs, act] + 1)"),
+                                                       ("        q_table = q_table.at[obs, act].add(\n            1.0 / n_visits[obs, act] * pred_error\n        )", "        q_table = q_table.at[obs, act].set(\n            q_table[obs, act] + pred_error / n_visits[obs, act]\n        )")]},
+    {"id": "c14-b-dyna-model-locals", "file": _Y, "edits": [("    model.transition = model.transition.at[obs, act].set(counts / sum(counts))", "    pair = (obs, act)\n    total = counts.sum()\n    model.transition = model.transition.at[pair].set(counts / total)"),
+                                                            ("    model.reward = model.reward.at[obs, act, next_obs].set(\n        np.mean(counter.reward_history[obs][act][next_obs])\n    )", "    seen = counter.reward_history[obs][act][next_obs]\n    entry = (obs, act, next_obs)\n    model.reward = model.reward.at[entry].set(sum(seen) / len(seen))")]},
+    {"id": "c14-b-dyna-counter-aliases", "file": _Y, "edits": [("    counter.transition_counter[obs][act][next_obs] += 1", "    row = counter.transition_counter[obs][act]\n    row[next_obs] = row[next_obs] + 1"),
+                                                               ("    counter.reward_history[obs][act][next_obs].append(reward)", "    history = counter.reward_history[obs][act][next_obs]\n    history.append(float(reward))")]},
+    {"id": "c14-b-dyna-planning-index-loop", "file": _Y, "find": "    for obs, act in zip(observations, actions, strict=False):", "replace": "    for k in range(n_planning_steps):\n        obs, act = observations[k], actions[k]"},
+    {"id": "c14-b-mc-count-from-end", "file": _M, "find": "        idx = ep_len - 1 - i", "replace": "        idx = -(i + 1)"},
+    {"id": "c14-b-dql-roles-by-conditional", "file": _D, "find": "        val = jax.random.uniform(subkey3)\n        if val < 0.5:\n            q_table1 = _dql_update(\n                subkey2,\n                q_table1,\n                q_table2,\n" + _DQL_REST + "        else:\n            q_table2 = _dql_update(\n                subkey2,\n                q_table2,\n                q_table1,\n" + _DQL_REST,
+     "replace": "        update_first = jax.random.uniform(subkey3) < 0.5\n        learner, evaluator = (q_table1, q_table2) if update_first else (q_table2, q_table1)\n        learner = _dql_update(subkey2, learner, evaluator, observation, action, reward, next_observation, gamma, learning_rate, terminated)\n"
+                "        if update_first:\n            q_table1 = learner\n        else:\n            q_table2 = learner\n"},
+    {"id": "c14-b-q-action-alias", "file": _Q, "find": "        next_observation, reward, terminated, truncated, info = env.step(\n            int(action)\n        )", "replace": "        chosen = int(action)\n        next_observation, reward, terminated, truncated, info = env.step(chosen)"},
+    {"id": "c14-b-q-mask-by-branch", "file": _Q, "find": _Q_CALL, "replace": _Q_BRANCH},
 ]
